@@ -58,7 +58,7 @@ def family_result(name, tier):
     merged = vlib.merge_streams([out for _, out, _ in rjobs], os.path.join(wdir, name + ".all.ndjson"))
     for _, out, _ in rjobs:
         os.remove(out)
-    total = vlib.judge_file(merged, wdir, module=fam.get("judge", "Judge"), marker=fam.get("shard_marker"))
+    total = vlib.judge_file(merged, wdir, module=fam.get("judge", "Judge"), marker=fam.get("shard_marker"), shard=fam.get("shard"))
     log("[%s] judged %d events in %.1fs: %s" % (name, total.events, time.time() - t2, dict(total.by_diag)))
     shutil.rmtree(wdir, ignore_errors=True)
     total.bad += compile_rejects
@@ -624,7 +624,8 @@ FAMILIES = {
     "parse": dict(jobs=parse_jobs, attr=lambda kind, op, tag, diag: ["C15"], literal_units=True),
     "native": dict(jobs=native_jobs, attr=lambda kind, op, tag, diag: ["C12"]),
     "text": dict(jobs=text_jobs, attr=text_attr, record_timeout=1800),
-    "wide": dict(jobs=wide_jobs, attr=lambda kind, op, tag, diag: ["C10"], record_timeout=1800),
+    # small shards: events on 1000- and 2048-bit operands cost far more than the average, and a shard is one TLC process
+    "wide": dict(jobs=wide_jobs, attr=lambda kind, op, tag, diag: ["C10"], record_timeout=1800, shard=12000),
     "fraction": dict(jobs=simple_jobs("h_fraction.cpp", "fraction"), attr=fraction_attr),
     "sqrt": dict(jobs=simple_jobs("h_sqrt.cpp", "sqrt"), attr=lambda kind, op, tag, diag: ["C19"]),
     "bits": dict(jobs=bits_jobs, attr=lambda kind, op, tag, diag: ["C18"]),
